@@ -1,4 +1,5 @@
 """C10 - control command encodes exactly the requested state (vendor bit layout)."""
+import asyncio
 import itertools
 
 from .common import REAL_BASE, STUB_BASE, Result, Space, SimDeadlock, SimStepLimit
@@ -56,15 +57,59 @@ def run(plan):
                 res.fail(f"genuine handshake raised {o.exc_type}", repr(o.exc))
                 return
         bodies = {}
+        mode = plan.get("mode", "plain")
         for st in states:
-            for k in FIELDS:
-                if k == "beep":
-                    ac.beep = st[k]
-                else:
-                    s.set_attr(ac, k, st[k])
+            poll = None
+            if mode == "after_refresh":
+                # the device reports some state first (turbo raised in only one of the two vendor flags); the user
+                # then changes a subset of the fields: the command must carry the reported state + the changes
+                import random as _r
+                rr = _r.Random(repr(sorted(st.items())))
+                reported = rand_state(rr)
+                for k2, v2 in reported.items():
+                    if k2 in SET_MAP:
+                        dev.state[SET_MAP[k2]] = v2
+                dev.state["aux_heat"], dev.state["indep_aux"] = reported["aux_mode"] == 1, reported["aux_mode"] == 2
+                dev.state["fan"] = reported["fan_speed"] & 0x7F
+                dev.state["humidity"] = min(reported["target_humidity"], 127)
+                dev.state["turbo_report"] = plan.get("turbo_report", "both")
+                o = await s.do({"op": "refresh"})
+                if o.kind != "ok" or not ac.online:
+                    res.fail("refresh before the partial apply failed", repr(o))
+                    return
+                keep = [k for k in FIELDS if k != "beep" and rr.random() < 0.6]
+                full = dict(reported, beep=st["beep"])
+                for k in FIELDS:
+                    if k not in keep:
+                        full[k] = st[k]
+                st = full
+                for k in FIELDS:
+                    if k == "beep":
+                        ac.beep = st[k]
+                    elif k not in keep:
+                        s.set_attr(ac, k, st[k])
+            else:
+                if mode == "during_refresh":
+                    # a poll is in flight on the same object when the user applies new settings
+                    dev.script = [{"lat": plan.get("poll_lat", 0.5)}]
+                    poll = w.loop.create_task(ac.refresh())
+                    await asyncio.sleep(plan.get("poll_lead", 1 / 256))
+                    w.fire("apply_while_refresh_in_flight")
+                for k in FIELDS:
+                    if k == "beep":
+                        ac.beep = st[k]
+                    else:
+                        s.set_attr(ac, k, st[k])
             n0 = len(dev.controls)
             nlog = len(dev.log)
             o = await s.do({"op": "apply"})
+            if poll is not None:
+                try:
+                    await poll
+                except Exception as e:
+                    res.fail(f"refresh running next to apply raised {type(e).__name__}", repr(e))
+                    return
+                await asyncio.sleep(0.6)
             if o.kind != "ok":
                 res.fail(f"apply raised {o.exc_type}", repr(o.exc))
                 return
@@ -89,7 +134,7 @@ def run(plan):
             if any(sp[k] for k in ("b1", "b8", "b9", "b10", "b18", "b19", "b21", "b22")) or any(sp["zeros"]) or d["_swing_hi"] != 0x30:
                 res.fail("control command sets bits outside the requested fields", repr(sp) + f" swing_hi={d['_swing_hi']:#x}")
                 return
-            req = [e for e in dev.log[nlog:] if e["kind"] == "request"][-1]
+            req = [e for e in dev.log[nlog:] if e["kind"] == "request" and e["body"][:1] == b"\x40"][-1]
             body = bytes(req["body"])
             if req["ftype"] != 0x02:
                 res.fail("control command frame type is not 0x02", str(req["ftype"]))
@@ -109,7 +154,7 @@ def run(plan):
     except (SimDeadlock, SimStepLimit) as e:
         res.fail(f"liveness: {type(e).__name__}", str(e))
     res.take(w)
-    res.key = tuple(tuple(sorted(st.items())) for st in states)
+    res.key = (plan.get("mode"), plan.get("turbo_report"), tuple(tuple(sorted(st.items())) for st in states))
     res.nontrivial = True
     return res
 
@@ -166,6 +211,18 @@ def space(tier):
     sp.add("small_fields", len(sc) * 2, f_small, exhaustive=True)
 
     def f_rand(j, rng):
-        return mk([rand_state(rng) for _ in range(8)], j)
+        p = mk([rand_state(rng) for _ in range(8)], j)
+        r = j % 4
+        if r == 1:
+            p["mode"] = "during_refresh"
+            p["poll_lat"] = rng.choice([0.05, 0.5, 1.0])
+            p["poll_lead"] = rng.choice([1 / 1024, 1 / 256, 0.01])
+            p["states"] = p["states"][:4]
+        elif r == 2:
+            p["mode"] = "after_refresh"
+            p["turbo_report"] = rng.choice(["both", "b8", "b10"])
+            for st in p["states"]:
+                st["target_humidity"] = min(st["target_humidity"], 100)
+        return p
     sp.add("random", 3000 if tier == "quick" else 70_000, f_rand)
     return sp
